@@ -869,13 +869,20 @@ func decidedWhenAbsent(before []entry, x entry, chains [][]*lib.Bundle) bool {
 			break
 		}
 	}
+	reqIdx := -1
 	for i := len(before) - 1; i >= prevCommit; i-- {
 		e := before[i]
 		if (e.Kind == eServed || e.Kind == eServeErr) && e.Req == x.Num {
-			return e.Kind == eServed && e.Valid && e.Fault == "" && e.Num == x.Num && !e.Hash.Equal(&x.Hash) && absent(e.Epoch)
+			if e.Kind == eServed && e.Valid && e.Fault == "" && e.Num == x.Num && !e.Hash.Equal(&x.Hash) && absent(e.Epoch) {
+				return true
+			}
+			// that request failed or confirmed x: the task that made it ended without reverting x; only a
+			// header given AFTER it can have started the task that reverted x without asking
+			reqIdx = i
+			break
 		}
 	}
-	for i := len(before) - 1; i >= 0; i-- {
+	for i := len(before) - 1; i >= 0 && i > reqIdx; i-- {
 		e := before[i]
 		if e.Kind == eStored || e.Kind == eRestart {
 			break
